@@ -236,6 +236,84 @@ theorem holdsSharp_boundary (limit : Nat) (ok exhausted : Bool) (want got echo :
   · have h : ¬ (limit + 1 ≤ limit) := by omega
     simp [holdsSharp, accepts, h]
 
+/-! ## the limit a server process is configured with is the limit the padding is relative to -/
+
+/-- **The configured limit is the padding limit**: for every server instance (protocol, HTTP
+version, TLS, reference server or not), a request whose directive with offset `off` was
+accepted is beyond the limit the runner configures the server process with exactly when
+`off > 0`. -/
+theorem configured_limit_is_padding_limit (limit R L₀ : Nat) (off : Int) (L : Nat) (inst : Instance)
+    (h : expand limit R L₀ off = .ok L) :
+    holdsConfigured (limitSent limit inst) (size R L) off = true := by
+  have hx := expand_exact limit R L₀ off L h
+  unfold holdsConfigured accepts limitSent
+  by_cases hd : off ≤ 0
+  · have : size R L ≤ limit := by omega
+    simp [hd, this]
+  · have : ¬ size R L ≤ limit := by omega
+    simp [hd, this]
+
+example : expand 204800 30 0 1 = .ok 204767 ∧
+    holdsConfigured (limitSent 204800 ⟨2, 2, false, false, true⟩) (size 30 204767) 1 = true := by decide
+
+/-- … and what the end-to-end runs (`sharp`) may then observe for such a request against a
+server configured by the runner: accepted and delivered intact for `off ≤ 0`, only
+resource-exhausted for `off > 0` -/
+theorem sharp_after_expand (limit R L₀ : Nat) (off : Int) (L : Nat) (inst : Instance)
+    (ok exhausted : Bool) (want got echo : Nat) (h : expand limit R L₀ off = .ok L) :
+    holdsSharp (limitSent limit inst) (size R L) ok exhausted want got echo = true ↔
+      if off ≤ 0 then (ok = true ∧ got = want ∧ echo = size R L) else (exhausted = true ∧ ok = false) := by
+  have hx := expand_exact limit R L₀ off L h
+  unfold holdsSharp accepts limitSent
+  by_cases hd : off ≤ 0
+  · have : size R L ≤ limit := by omega
+    simp [hd, this, and_assoc]
+  · have : ¬ size R L ≤ limit := by omega
+    simp [hd, this]
+
+example : expand 204800 30 0 5 = .ok 204771 ∧
+    holdsSharp (limitSent 204800 ⟨2, 2, false, false, true⟩) (size 30 204771) true false 1 1 204805 = false := by decide
+
+/-- **Sharpness w.r.t. the padding pins the configured limit down**: the requests padded to
+`limit + d` are beyond the configured limit `cfg` exactly for `d > 0`, for every offset, iff
+`cfg` IS the padding limit. -/
+theorem configured_sharp_iff (cfg limit : Nat) :
+    (∀ d : Int, 0 ≤ (limit : Int) + d → holdsConfigured cfg ((limit : Int) + d).toNat d = true) ↔
+      cfg = limit := by
+  constructor
+  · intro h
+    have h0 := h 0 (by omega)
+    have h1 := h 1 (by omega)
+    have e0 : ((limit : Int) + 0).toNat = limit := by omega
+    have e1 : ((limit : Int) + 1).toNat = limit + 1 := by omega
+    rw [e0] at h0; rw [e1] at h1
+    simp [holdsConfigured, accepts] at h0 h1
+    omega
+  · rintro rfl d hd
+    unfold holdsConfigured accepts
+    by_cases hd0 : d ≤ 0
+    · have : ((cfg : Int) + d).toNat ≤ cfg := by omega
+      simp [hd0, this]
+    · have : ¬ ((cfg : Int) + d).toNat ≤ cfg := by omega
+      simp [hd0, this]
+
+/-- witness: a configured limit with "room for the 5-byte envelope prefix" is not sharp — the
+requests padded to `limit + 1 … limit + 5` pass — while every other offset (in particular `0`
+and `+10`, the only ones in the shipped suites) behaves as with the right limit -/
+theorem prefix_room_breaks_sharpness (limit : Nat) (d : Int) (hd : 0 ≤ (limit : Int) + d) :
+    holdsConfigured (limit + 5) ((limit : Int) + d).toNat d = decide (d ≤ 0 ∨ 6 ≤ d) := by
+  unfold holdsConfigured accepts
+  by_cases h0 : d ≤ 0
+  · have : ((limit : Int) + d).toNat ≤ limit + 5 := by omega
+    simp [h0, this]
+  · by_cases h6 : 6 ≤ d
+    · have : ¬ ((limit : Int) + d).toNat ≤ limit + 5 := by omega
+      simp [h0, h6, this]
+    · have : ((limit : Int) + d).toNat ≤ limit + 5 := by omega
+      simp [h0, h6, this]
+
+example : holdsConfigured (204800 + 5) ((204800 : Int) + 3).toNat 3 = false := by decide
+
 /-! ## whole suites: the directives are honoured in every suite the loader accepts -/
 
 /-- the messages of one accepted test case -/
